@@ -141,7 +141,7 @@ def droplet_bytes(d) -> bytes:
 
 # --------------------------------------------------------------------------- provenance
 
-ROUTES = ("ctor", "copy", "pickle", "deepcopy", "from_data", "emulsion", "linked", "pickled-emulsion")
+ROUTES = ("ctor", "copy", "pickle", "deepcopy", "from_data", "emulsion", "linked", "pickled-emulsion", "file")
 
 
 def pick_route(rng, p_plain=0.5) -> str:
@@ -177,6 +177,18 @@ def via(d, route):
         return em[1]
     if route == "pickled-emulsion":
         return pickle.loads(pickle.dumps(droplets.Emulsion([d])))[0]
+    if route == "file":
+        # written to an HDF5 file as the only member of an emulsion and read back
+        import os
+        import tempfile
+
+        fd, path = tempfile.mkstemp(suffix=".h5", dir=os.environ.get("VERIF_SCRATCH") or None)
+        os.close(fd)
+        try:
+            droplets.Emulsion([d]).to_file(path)
+            return droplets.Emulsion.from_file(path)[0]
+        finally:
+            os.unlink(path)
     raise ValueError(route)
 
 
